@@ -17,8 +17,11 @@ def make_case(i):
     sd = vfw.seed() * 1000003 + 170000 + i
     rnd = random.Random(sd)
     c = Case('P%d' % i, timeout=60)
+    # one gdstk-written file in ten uses layer / type numbers above 32767 (16-bit fields with the top bit set: outside what GDSII defines,
+    # but gdstk writes them, and the readers must still agree with one another on what they find)
+    hightags = i % 20 == 6
     if i % 2 == 0:
-        g = genlib.Gen(sd, dict(oas_props=False, nonsimple=False, max_cells=5, ref_by_name=(i % 4 == 0)))
+        g = genlib.Gen(sd, dict(oas_props=False, nonsimple=False, max_cells=5, ref_by_name=(i % 4 == 0), max_tag=65535 if hightags else 32767))
         lib = g.library()
         lh, chs = genlib.emit_library(c, lib)
         c.op('write_gds', lh, 'orig.gds', 0, '2018 5 6 7 8 9')
@@ -52,7 +55,7 @@ def make_case(i):
     c.op('gds_timestamp', 'copy.gds', *NEWTS)
     c.op('filehex', 'copy.gds')
     c.op('gds_timestamp', 'copy.gds')
-    c.meta = {'origin': origin, 'tags': tags, 'unit': u, 'seed': sd, 'nl': nl}
+    c.meta = {'origin': origin, 'tags': tags, 'unit': u, 'seed': sd, 'nl': nl, 'hightags': hightags}
     return c
 
 
@@ -84,7 +87,7 @@ def work(rec, b, indices):
             continue
         data = bytes.fromhex(fh[0]['hex'])
         try:
-            dec = gds_codec.decode(data)
+            dec = gds_codec.decode(data, strict_ranges=not c.meta['hightags'])
         except gds_codec.GdsError as ex:
             rec.harness_error('%s: independent decoder rejects the source file (%s): %s' % (c.id, c.meta['origin'], ex))
             continue
@@ -130,8 +133,10 @@ def judge_stage1(chk, c, evs, data, dec):
     npath = sum(1 for cc in dec['cells'] for e in cc['elements'] if e['kind'] == 'path')
     nref = sum(1 for cc in dec['cells'] for e in cc['elements'] if e['kind'] in ('sref', 'aref'))
     nlab = sum(1 for cc in dec['cells'] for e in cc['elements'] if e['kind'] == 'text')
-    stags = tagset((e['layer'], e['datatype']) for cc in dec['cells'] for e in cc['elements'] if e['kind'] in ('boundary', 'box', 'path'))
-    ltags = tagset((e['layer'], e['texttype']) for cc in dec['cells'] for e in cc['elements'] if e['kind'] == 'text')
+    # (the decoder reads the 16-bit fields as signed; gdstk keeps tags as unsigned 32-bit numbers: same value modulo 2^32)
+    M32 = 0xFFFFFFFF
+    stags = tagset((e['layer'] & M32, e['datatype'] & M32) for cc in dec['cells'] for e in cc['elements'] if e['kind'] in ('boundary', 'box', 'path'))
+    ltags = tagset((e['layer'] & M32, e['texttype'] & M32) for cc in dec['cells'] for e in cc['elements'] if e['kind'] == 'text')
     if info['err'] not in (0,):
         chk.violation('C17/gds_info/error-code', 'gds_info returned %d on a valid file' % info['err'], rp)
     got = (info['cell_names'], info['num_polygons'], info['num_paths'], info['num_references'], info['num_labels'],
@@ -143,6 +148,14 @@ def judge_stage1(chk, c, evs, data, dec):
     fl_names = [cc['name'] for cc in full['cells']]
     fl_counts = (sum(len(cc['polys']) for cc in full['cells']), sum(len(cc['fpaths']) for cc in full['cells']),
                  sum(len(cc['refs']) for cc in full['cells']), sum(len(cc['labels']) for cc in full['cells']))
+    fl_stags = tagset((e_['layer'], e_['type']) for cc in full['cells'] for e_ in cc['polys']) | tagset(
+        (el_['layer'], el_['type']) for cc in full['cells'] for f_ in cc['fpaths'] for el_ in f_['elements'])
+    fl_ltags = tagset((e_['layer'], e_['type']) for cc in full['cells'] for e_ in cc['labels'])
+    if (fl_stags, fl_ltags) != (tagset(info['shape_tags']), tagset(info['label_tags'])):
+        chk.violation('C17/gds_info/tags-vs-full-load', 'gds_info reports shape tags %s label tags %s; the full load finds %s and %s' % (
+            sorted(tagset(info['shape_tags']))[:8], sorted(tagset(info['label_tags']))[:8], sorted(fl_stags)[:8], sorted(fl_ltags)[:8]), rp)
+    if c.meta['hightags'] and any(a > 32767 or b > 32767 for a, b in fl_stags | fl_ltags):
+        chk.cov('files_with_tags_above_32767')
     if fl_names != names or fl_counts != (npoly, npath, nref, nlab):
         chk.violation('C17/full-load/summary', 'full load has cells %s counts %s; the file holds %s %s' % (fl_names, fl_counts, names, (npoly, npath, nref, nlab)), rp)
     # ---- units
@@ -253,7 +266,7 @@ def judge_stage2(chk, c, evs, data, dec):
         return
     out = bytes.fromhex(fh['hex'])
     try:
-        dec2 = gds_codec.decode(out)
+        dec2 = gds_codec.decode(out, strict_ranges=not c.meta['hightags'])
     except gds_codec.GdsError as ex:
         chk.violation('C17/rawcell/output-invalid', 'file assembled from raw cells is rejected by the strict decoder: %s' % ex, rp)
         return
